@@ -276,6 +276,18 @@ def _brace_depth(s, lo, pos):
     return d
 
 
+def methods_of(text, impl):
+    """Names of all `fn`s declared directly inside the impl blocks matching `impl` (depth 1)."""
+    names = []
+    rx = re.compile(r"(?<![A-Za-z0-9_])" + _VIS + _FNQ + r"fn\s+([A-Za-z_][A-Za-z0-9_]*)")
+    for istart, brace in _find_impls(text, impl):
+        lo, hi = brace + 1, _item_end(text, istart) - 1
+        for m in _code_positions(text, rx, lo, hi):
+            if _brace_depth(text, lo, m.start()) == 0 and m.group(1) not in names:
+                names.append(m.group(1))
+    return names
+
+
 def strip_attrs(item, names):
     """Remove attribute lines such as `#[instrument(skip_all)]` (tracing) from an extracted item.
     Only whole-line attributes whose path is in `names` are removed; the removal is recorded by
